@@ -354,7 +354,8 @@ def rule_FR7(rep, prog):
         rep.saw(fn)
         boms = [i for i in fn.all_insts() if i.op == "icmp" and i.d["pred"] in ("eq", "ne") and i.ops[1][0] == "c" and i.ops[1][1] in consts_
                 and (zero_only or i.d.get("inl") is None and not _is_const_select(fn, i.ops[0]))]
-        if not boms:
+        sws = [(sw, val, tgt) for sw in fn.all_insts() if sw.op == "switch" for val, tgt in sw.d.get("cases", []) if val in consts_]
+        if not boms and not sws:
             rep.unknown(rid, "no BOM comparison found in %s" % fname)
             continue
         # `offset` is the third parameter of the applier block (region, offset, buffer, size) after the block literal itself
@@ -379,29 +380,49 @@ def rule_FR7(rep, prog):
                     if any(isinstance(k_, tuple) and is_offset(k_) and c == 1 for k_, c in lf.items()):
                         return ii.d["pred"] == "eq"
             return None
+        def has_anchor(tr):
+            return any(anchor(fn.insts[iid]) is not None and tv == anchor(fn.insts[iid]) for iid, tv in tr.items())
+        def tests_anchor_first(bid):
+            """the block reached once the unit is known to be a BOM does nothing but decide on the position: no call / store, and one outcome of its branch
+            establishes the anchor (the nested-if / switch-case form of `unit == BOM && offset == 0`)"""
+            blk = fn.blocks[bid]
+            if any(i.op in ("call", "store", "atomicrmw", "cmpxchg") for i in blk.insts):
+                return False
+            t = blk.term
+            if t.op != "br" or not t.ops or len(t.d.get("succs", [])) != 2:
+                return False
+            for truth in (True, False):
+                cx = paths.PathCtx(fn)
+                cx.learn(t.ops[0], truth)
+                if has_anchor(cx.truth):
+                    return True
+            return False
         brs = [i for i in fn.all_insts() if i.op == "br" and len(i.d.get("succs", [])) == 2]
+        tests = []   # (location inst, constant, [(truth facts, target block)])
         for t in boms:
-            edges = 0
-            anchored = True
+            edges = []
             for br in brs:
                 for truth in (True, False):
                     cx = paths.PathCtx(fn)
                     cx.learn(br.ops[0], truth)
                     if cx.truth.get(t.id) != (t.d["pred"] == "eq"):
                         continue
-                    edges += 1
                     # also accept facts that dominate the branch
                     dx = paths.dom_ctx(fn, br)
                     tr = dict(dx.truth); tr.update(cx.truth)
-                    if not any(anchor(fn.insts[iid]) is not None and tv == anchor(fn.insts[iid]) for iid, tv in tr.items()):
-                        anchored = False
-            if edges == 0:
+                    edges.append((tr, br.d["succs"][0 if truth else 1]))
+            tests.append((t, t.ops[1][1], edges))
+        for sw, val, tgt in sws:
+            tests.append((sw, val, [(dict(paths.dom_ctx(fn, sw).truth), tgt)]))
+        for t, cval, edges in tests:
+            if not edges:
                 rep.unknown(rid, "no branch edge establishes the BOM comparison at %s" % t.loc)
                 continue
-            rep.require(rid, anchored, t.loc, fn.name, "bom-not-anchored-at-offset-0:%#x" % t.ops[1][1],
+            anchored = all(has_anchor(tr) or tests_anchor_first(tgt) for tr, tgt in edges)
+            rep.require(rid, anchored, t.loc, fn.name, "bom-not-anchored-at-offset-0:%#x" % cval,
                         "%s treats %#x as a byte-order mark without tying the decision to the absolute position in the data (region offset): a U+FEFF that merely sits at "
-                        "that position within a region is dropped (or the data rejected), so the result depends on how the input is fragmented" % (fn.name, t.ops[1][1]),
-                        sample={"test": t.loc, "edges": edges, "fn": fn.name})
+                        "that position within a region is dropped (or the data rejected), so the result depends on how the input is fragmented" % (fn.name, cval),
+                        sample={"test": t.loc, "edges": len(edges), "fn": fn.name})
 
 
 def _is_const_select(fn, op):
